@@ -115,7 +115,7 @@ def ref_merge(o, v):
 
 
 def params(tier):
-    return [P("h1", 0, 2), P("e1", 0, 3), P("h2", 0, 2), P("e2", 0, 3), P("spelling", 0, 3), P("slash", 0, 1),
+    return [P("h1", 0, 2), P("e1", 0, 3), P("h2", 0, 2), P("e2", 0, 3), P("spelling", 0, 3), P("slash", 0, 2),
             P("extra", 0, 3), P("deep", 0, 1), P("kidnone", 0, 1), P("nestedstart", 0, 1), P("innerctx", 0, 1)]
 
 
@@ -123,14 +123,15 @@ def params(tier):
 def fn(a, tier):
     install_entry_points()
     h1, e1, h2, e2 = pick(a["h1"], 3), pick(a["e1"], 4), pick(a["h2"], 3), pick(a["e2"], 4)
-    spelling, slash = pick(a["spelling"], 4), pick(a["slash"], 2)
+    spelling, slash = pick(a["spelling"], 4), pick(a["slash"], 3)
+    suffix = [None, "special", "caf\u00e9_\u53d7\u4fe12"][slash]  # any non-empty run of word characters is a valid resource name
     extra = pick(a["extra"], 4)
     deep, kidnone = (1, 0) if tier == "quick" else (pick(a["deep"], 2), pick(a["kidnone"], 2))
     nestedstart = pick(a["nestedstart"], 2)
     innerctx = pick(a["innerctx"], 2)
     # alias: with spelling "omitted" the alias (its part before '/') must itself name the type
     base = "c14leaf" if spelling == 3 else "kid"
-    alias = f"{base}/special" if slash else base
+    alias = f"{base}/{suffix}" if slash else base
     hard_kid = {}
     if h1:
         hard_kid["k1"] = hard_val(h1, "k1")
@@ -208,7 +209,7 @@ def fn(a, tier):
     # default-name remapping: in start() only, for the default name only, for the component's own alias only
     names = out1["names"]
     exp_names = {
-        "KidLeaf": [["special" if slash else "default"], ["explicit"], ["default"]],
+        "KidLeaf": [[suffix if slash else "default"], ["explicit"], ["default"]],
         "PlainLeaf": [["default"], ["explicit"], ["default"]],
         "DeepLeaf": [["default"], ["explicit"], ["default"]],
         "ExtraLeaf": [[], [], []] if extra == 0 else [[["viaconfig", "cfgonly", "deepcfg"][extra - 1]], ["explicit"], ["default"]],
@@ -229,7 +230,7 @@ H = Harness(
     cube=lambda tier: 4,
     title="hard-coded add_component() kwargs vs external components configuration at two depths; type spellings; aliases; config reuse",
     bound_text=lambda tier: "2 kwargs keys: hard-coded {absent, scalar, nested dict} x external {absent, scalar, None, nested dict}; child type given as {"
-    + ", ".join(SPELL) + "}; alias with/without '/name'; config-only child {none, dict with class type, None with type from alias, the same one level further down}; external config for a grandchild; alias present with an empty dict or absent; the child optionally starts a component sub-tree of its own from inside start()",
+    + ", ".join(SPELL) + "}; alias without '/name', with an ASCII and with a non-ASCII (accented + CJK + digit) name; config-only child {none, dict with class type, None with type from alias, the same one level further down}; external config for a grandchild; alias present with an empty dict or absent; the child optionally starts a component sub-tree of its own from inside start()",
     oracle="kwargs received by every constructor == reference deep merge(hard-coded, external); exactly the expected components are created; "
     "start_component twice from the same config object gives identical logs and leaves the object == its deep copy; resources added as 'default' "
     "in start() appear under the alias suffix of their own component only, those from prepare() and explicitly named ones never",
@@ -326,4 +327,72 @@ PHASE = Harness(
     stubs=STUBS_COMMON,
 )
 
-HARNESSES = [H, PHASE]
+
+# ------------------------------------------------------------------------------ G-rebind
+class RebindA(Component):
+    def __init__(self, **kw):
+        LOG.append(("init", "RebindA", kw))
+
+
+class RebindB(Component):
+    def __init__(self, **kw):
+        LOG.append(("init", "RebindB", kw))
+
+
+REBOUND = RebindA  # what "harness.c14:REBOUND" refers to; re-bound between two starts (plugin reload, implementation swap)
+
+
+def rebind_params(tier):
+    return [P("where", 0, 1), P("first", 0, 1)]
+
+
+@guard
+def rebind_fn(a, tier):
+    import harness.c14 as me
+
+    where, first = pick(a["where"], 2), pick(a["first"], 2)
+    order = [RebindA, RebindB] if first == 0 else [RebindB, RebindA]
+
+    class Top(Component):
+        def __init__(self, **kw):
+            if where == 0:
+                self.add_component("x", "harness.c14:REBOUND", n=1)
+
+    config = {"components": {"x": {"type": "harness.c14:REBOUND", "n": 1}}} if where == 1 else {}
+    built = []
+    for cls in order:
+        me.REBOUND = cls
+        LOG.clear()
+
+        async def main():
+            async with Context():
+                await start_component(Top, config, timeout=None)
+
+        _, exc, _k = run(main)
+        if exc is not None:
+            me.REBOUND = RebindA
+            return FAIL(f"rebind:raised:{type(exc).__name__}", repr(exc))
+        built.append([e[1] for e in LOG if e[0] == "init"])
+    me.REBOUND = RebindA
+    summary = {"reference_given_in": ["add_component()", "the external configuration"][where], "attribute_bound_to": [c.__name__ for c in order]}
+    exp = [[c.__name__] for c in order]
+    if built != exp:
+        return FAIL("rebind:module-attr-reference-not-equivalent-to-the-class-it-names-at-start", f"built {built}, the attribute named {exp}", summary)
+    return OK(summary, True)
+
+
+REBIND = Harness(
+    prop="C14",
+    name="G-rebind",
+    fn=rebind_fn,
+    params=rebind_params,
+    cube=lambda tier: 0,
+    title="a 'module:attr' type reference is the class the attribute names when the tree is started",
+    bound_text=lambda tier: "child type 'harness.c14:REBOUND' given in add_component() / in the external configuration; the tree is started twice from the same "
+    "configuration object with the attribute bound to another class in between (both orders)",
+    oracle="each start constructs the class the attribute names at that moment - what giving the class itself would construct",
+    outside="entry points changing between starts (package metadata is environment)",
+    stubs=STUBS_COMMON,
+)
+
+HARNESSES = [H, PHASE, REBIND]
